@@ -23,6 +23,7 @@ import ArvVerif.Base.Bytes
 import ArvVerif.Base.Loop
 import ArvVerif.Model.C16
 import ArvVerif.Model.C16_RunQueue
+import ArvVerif.Model.C16_Queue
 open ArvVerif ArvVerif.C16
 
 def splitOn1 (s : String) (sep : String) : List String :=
@@ -207,12 +208,180 @@ def stepRQ (real : Bool) (pool types ents : String) : String :=
     let traces := (allSorted ents).map (fun sorted => showTrace op cur (runQueue stubPool stub unalloc keys sorted))
     "|".intercalate traces.eraseDups
 
+/-! ### container.Queue histories followed by one runQueue pass
+
+  cq <quota>:<cancreate> <types> <ctl> <history>
+      ctl     = uuid:state:prio:need:flags , ...   state = Q|L|R|C|X; flags ⊆ {m} or "-" (m: locked by this dispatcher)
+      history = tokens joined by ","  (or "-"):
+                ub / us / ue   Update() begins (dontupdate set) / the controller takes the snapshot the
+                               poll is answered from / the responses arrive and Update() finishes
+                L<u> U<u> C<u> queue.Lock / Unlock / Cancel(u)
+                x<u>:<S>:<p>   somebody else changes state and priority of u at the controller
+                f<u>           the next PUT runtime_status for u fails
+    the type chooser is the real ChooseInstanceType over the table t0,t1,t2 with 1,2,4 VCPUs; the
+    container asks for `need` VCPUs.
+    -> cache=<u:S:prio:type,...>;ctl0=<u:S:prio:flags,...>;tr=<trace>;L=<Lock calls>;ctl=<...>;cache1=<...>
+       (cache and ctl0 before the pass, ctl and cache1 after it), alternatives joined by "|"
+-/
+open ArvVerif.C16.Q
+
+def cqTable : List IType :=
+  [ { name := 0, vcpus := 1, ram := 1000, scratch := 0, price := 64, preemptible := false },
+    { name := 1, vcpus := 2, ram := 1000, scratch := 0, price := 128, preemptible := false },
+    { name := 2, vcpus := 4, ram := 1000, scratch := 0, price := 256, preemptible := false } ]
+
+def cqChoose (need : Nat) : Option Nat :=
+  let c : Ctr := { vcpus := need, ram := 1, keepCacheRAM := 0, preemptible := false, image := [], mounts := [] }
+  match chooseWith cqTable (availSorted cqTable) 0 c with
+  | .ok it => some it.name
+  | _ => none
+
+def parseQState? (s : String) : Option QState :=
+  if s == "Q" then some .queued else if s == "L" then some .locked else if s == "R" then some .running
+  else if s == "C" then some .complete else if s == "X" then some .cancelled else none
+
+def showQState : QState → String
+  | .queued => "Q" | .locked => "L" | .running => "R" | .complete => "C" | .cancelled => "X"
+
+def parseCRec? (s : String) : Option CRec :=
+  match s.splitOn ":" with
+  | [u, st, p, need, fl] => do
+    let u ← u.toNat?
+    let st ← parseQState? st
+    let p ← p.toInt?
+    let need ← need.toNat?
+    if fl != "-" && fl != "m" then none
+    if fl == "m" && !(st == .locked || st == .running) then none
+    pure { uuid := u, st := st, prio := p, need := need, mine := fl == "m", err := false }
+  | _ => none
+
+structure CQ where
+  ctl : Ctl
+  cache : Cache
+  snap : Option Ctl
+  inUpdate : Bool
+  faults : List Nat
+
+def sortBy {α : Type} (key : α → Nat) (l : List α) : List α :=
+  (l.toArray.qsort (fun a b => key a < key b)).toList
+
+def showCache (c : List (Nat × CEnt)) : String :=
+  let items := (sortBy (·.1) c).map (fun p =>
+    s!"{p.1}:{showQState p.2.st}:{p.2.prio}:" ++ (match p.2.ty with | some t => toString t | none => "z"))
+  if items.isEmpty then "-" else ",".intercalate items
+
+def showCtl (ctl : Ctl) : String :=
+  let items := (sortBy (·.uuid) ctl).map (fun r =>
+    s!"{r.uuid}:{showQState r.st}:{r.prio}:" ++ (if r.mine then "m" else "") ++ (if r.err then "e" else "") ++
+      (if !r.mine && !r.err then "-" else ""))
+  if items.isEmpty then "-" else ",".intercalate items
+
+def cqLocal (q : CQ) (r : Option (Ctl × CRec)) : CQ :=
+  match r with
+  | some (ctl, rec) => { q with ctl := ctl, cache := localResp q.cache rec.uuid rec.st rec.prio }
+  | none => q
+
+/-- the cancel task started by addEnt for an unsatisfiable container; `polled` is the state the
+poll reported -/
+def cqCancelTask (q : CQ) (u : Nat) (polled : QState) : CQ :=
+  let afterLock : Option CQ :=
+    if polled == .queued then (ctlLock q.ctl u).map (fun r => cqLocal q (some r)) else some q
+  match afterLock with
+  | none => q
+  | some q1 =>
+    match ctlSetError q1.ctl q1.faults u with
+    | (none, fs) => { q1 with faults := fs }
+    | (some ctl, fs) => cqLocal { q1 with ctl := ctl, faults := fs } (ctlCancel ctl u)
+
+def cqStep (q : CQ) (tok : String) : Option CQ :=
+  if tok == "ub" then
+    if q.inUpdate then none else some { q with cache := beginUpdate q.cache, inUpdate := true, snap := none }
+  else if tok == "us" then
+    if q.inUpdate && q.snap.isNone then some { q with snap := some q.ctl } else none
+  else if tok == "ue" then
+    if !q.inUpdate then none else
+    let snap := q.snap.getD q.ctl
+    let next := pollResult snap q.cache.current
+    let (cache', tasks) := applyPoll cqChoose q.cache next
+    let q1 := { q with cache := cache', inUpdate := false, snap := none }
+    some ((sortBy id tasks).foldl (fun q u =>
+      match next.find? (fun r => r.uuid == u) with
+      | some r => cqCancelTask q u r.st
+      | none => q) q1)
+  else
+    let op := tok.take 1 |>.toString
+    let rest := tok.drop 1 |>.toString
+    if op == "L" then rest.toNat?.map (fun u => cqLocal q (ctlLock q.ctl u))
+    else if op == "U" then rest.toNat?.map (fun u => cqLocal q (ctlUnlock q.ctl u))
+    else if op == "C" then rest.toNat?.map (fun u => cqLocal q (ctlCancel q.ctl u))
+    else if op == "f" then rest.toNat?.map (fun u => { q with faults := q.faults ++ [u] })
+    else if op == "x" then
+      match rest.splitOn ":" with
+      | [u, st, p] => do
+        let u ← u.toNat?
+        let st ← parseQState? st
+        let p ← p.toInt?
+        let r ← cget q.ctl u
+        pure { q with ctl := cset q.ctl { r with st := st, prio := p, mine := r.mine && (st == .locked || st == .running) } }
+      | _ => none
+    else none
+
+def entOfCache (p : Nat × CEnt) : Ent :=
+  { uuid := p.1, prio := p.2.prio,
+    st := (match p.2.st with | .queued => CState.queued | .locked => CState.locked | _ => CState.other),
+    ty := p.2.ty.getD 999, running := false }
+
+def stepCQ (pool types ctl hist : String) : String :=
+  let r := do
+    let (qt, cc) ← (match pool.splitOn ":" with
+      | [q, cc] => do
+        let q ← q.toNat?
+        let cc ← cc.toNat?
+        pure (q, cc)
+      | _ => none)
+    let ts ← (splitOn1 types ",").mapM parsePoolType?
+    let recs : List CRec ← (splitOn1 ctl ",").mapM parseCRec?
+    if (recs.map CRec.uuid).eraseDups.length != recs.length then none
+    let q0 : CQ := { ctl := recs, cache := { current := [], dontupdate := none }, snap := none, inUpdate := false, faults := [] }
+    let q ← (splitOn1 hist ",").foldlM cqStep q0
+    if q.inUpdate then none
+    pure (qt, cc, ts, q)
+  match r with
+  | none => "bad-op"
+  | some (qt, cc, ts, q) =>
+    let tsa := ts.toArray
+    let stub : Stub :=
+      { quota := qt, canCreate := cc, created := 0, starts := fun _ => 0
+        idle := fun t => match tsa[t]? with | some (i, _, _) => i | none => 0
+        mode := fun t => match tsa[t]? with | some (_, _, m) => m | none => .byIdle
+        lingering := fun _ => false }
+    let unalloc : Nat → Int := fun t => match tsa[t]? with | some (i, b, _) => (i + b : Nat) | none => 0
+    let keys := List.range ts.length
+    let ents := q.cache.current.map entOfCache
+    let outs := (allSorted ents).map (fun sorted =>
+      let tr := runQueue stubPool stub unalloc keys sorted
+      -- queue.Unlock calls of the pass, in order
+      let q1 := tr.foldl (fun (q : CQ) (e : Ev) => match e with
+        | .unlock u => cqLocal q (ctlUnlock q.ctl u)
+        | _ => q) q
+      -- lockContainer goroutines: the cached state must still be Queued, then queue.Lock
+      let lockgos := tr.filterMap (fun (e : Ev) => match e with | .lockgo u => some u | _ => none)
+      let calls := lockgos.filter (fun u => (lookup q1.cache.current u).map CEnt.st == some QState.queued)
+      let q2 := (sortBy id calls).foldl (fun q u => cqLocal q (ctlLock q.ctl u)) q1
+      let evs := tr.filterMap showEv
+      s!"cache={showCache q.cache.current};ctl0={showCtl q.ctl};tr=" ++
+        (if evs.isEmpty then "-" else ",".intercalate evs) ++
+        ";L=" ++ (if calls.isEmpty then "-" else joinNames calls) ++
+        s!";ctl={showCtl q2.ctl};cache1={showCache q2.cache.current}")
+    "|".intercalate outs.eraseDups
+
 def step (line : String) : String :=
   match fields line with
   | ["choose", reserve, types, ctr, image, mounts] => stepChoose reserve types ctr image mounts
   | ["arith", image, mounts] => stepArith image mounts
   | ["rq", pool, types, ents] => stepRQ false pool types ents
   | ["rqp", pool, types, ents] => stepRQ true pool types ents
+  | ["cq", pool, types, ctl, hist] => stepCQ pool types ctl hist
   | _ => "bad-op"
 
 def main : IO Unit := lineLoop step
